@@ -6,11 +6,15 @@
    [copy_below_file_refused]. *)
 From AF Require Import Lib.Bytes Lib.Path Lib.Ops Gen.Consts Model.MemFile Model.MemFs Model.WfOps Model.Union Model.Cow
   Model.Cache Proofs.MemFsBasics Proofs.MemFsPath Proofs.MemFsWF Proofs.MemBelow Proofs.MemFsStep Proofs.MemFsInv
-  Proofs.MemBelowRefused Proofs.CacheProof.
+  Proofs.MemBelowRefused Proofs.MemFsBelow Proofs.CacheProof.
 From AF Require Proofs.FaultyMem.
 Local Open Scope Z_scope.
 
 Lemma copyfile_cleans_name_is_1 : copyfile_cleans_name = 1. Proof. reflexivity. Qed.
+
+(* a call that satisfies the ordinary preconditions keeps the invariant of MemMapFs *)
+Lemma WF_step_ord s o : WF s -> wf_op_ord s o = true -> WF (fst (m_step s o)).
+Proof. intros W H. apply WF_step; [exact W | now apply wf_op_of_ord]. Qed.
 
 (* ---------- names ---------- *)
 (* a name that is absolute after normalisation and is not the root: its clean form is its key, the
@@ -168,10 +172,10 @@ Proof.
   - (* it is not: MkdirAll of it, which creates it and its missing ancestors *)
     rewrite (stat_missing sl (par key)) by (rewrite (canon_norm _ Hcp); assumption).
     cbn [is_not_exist ek EW errk_eqb].
-    assert (Hwfop : wf_op (bump sl) (MkdirAll (par key) 511) = true).
-    { cbn [wf_op]. unfold wf_name. rewrite (canon_norm _ Hcp). destruct Hcp as [_ Hrt]. rewrite Hrt. cbn [andb].
+    assert (Hwfop : wf_op_ord (bump sl) (MkdirAll (par key) 511) = true).
+    { cbn [wf_op_ord]. unfold wf_name. rewrite (canon_norm _ Hcp). destruct Hcp as [_ Hrt]. rewrite Hrt. cbn [andb].
       exact (no_file_prefix_prefixes_dirs sl key W Hc Hr Hn). }
-    pose proof (WF_step (bump sl) (MkdirAll (par key) 511) (WF_bump sl W) Hwfop) as W'.
+    pose proof (WF_step_ord (bump sl) (MkdirAll (par key) 511) (WF_bump sl W) Hwfop) as W'.
     assert (Hbf : below_file (bump sl) (normalize_path (par key)) = false).
     { rewrite (canon_norm _ Hcp). apply (below_file_prefixes_dirs (bump sl) (par key) (WF_bump sl W) Hcp).
       exact (no_file_prefix_prefixes_dirs sl key W Hc Hr Hn). }
